@@ -396,7 +396,9 @@ func (lex *ExprLexer) lexEnd() *Token {
 	if r != '}' {
 		return lex.unexpected(r, "end marker }}", "'}'")
 	}
+	e := lex.lexErr
 	lex.scan.Next()
+	lex.lexErr = e // the character after the end marker is not part of the expression
 	// }} is an end marker of interpolation
 	return lex.token(TokenKindEnd)
 }
